@@ -41,7 +41,11 @@ def variants(n):
          ("free-inputs", ident, [0] * n, base, "dnf", "bnet-free"),
          # every function written over its essential variables only, duplicated idempotently: (f) & (f) / !!(f)
          ("idem", ident, [0] * n, base, "idem", "bnet"),
-         ("notnot", ident, [0] * n, base, "notnot", "bnet")]
+         ("notnot", ident, [0] * n, base, "notnot", "bnet"),
+         # the network handed over as an OBJECT built through the AEON API, its variables declared in reversed / rotated
+         # order (the text loaders always sort the names, so only an object can have another declaration order)
+         ("object-reversed", ident, [0] * n, base, "dnf", "object:reversed"),
+         ("object-rotated", ident, [0] * n, base, "cnf", "object:rotated")]
     return V
 
 
@@ -98,7 +102,11 @@ def transform_tables(tables, perm, flips):
 
 def run_sd(text, fmt, names):
     from biobalm import SuccessionDiagram
-    sd = SuccessionDiagram.from_rules(text, format=fmt)
+    if fmt.startswith("object:"):
+        from checks import hist
+        sd = SuccessionDiagram(hist.reordered_network(text, fmt.split(":")[1]))
+    else:
+        sd = SuccessionDiagram.from_rules(text, format=fmt)
     r = ops.guarded(sd.expand_bfs)
     seeds = ops.guarded(lambda: {int(i): [ops._t(names, s) for s in v] for i, v in sd.expanded_attractor_seeds().items()})
     return {"exc": r["exc"] or seeds["exc"], "msg": r.get("msg") or seeds.get("msg"), "dump": ops.dump_sd(sd, names, attractors=False), "seeds": seeds["ret"]}
@@ -134,7 +142,7 @@ def drop_identity_rules(text, tables, names, symbolic):
 def to_format(text, fmt):
     import biodivine_aeon as ba
     from engine import oracles
-    if fmt in ("bnet", "bnet-free"):
+    if fmt in ("bnet", "bnet-free") or fmt.startswith("object:"):
         return text
     BN = oracles.REAL.get("BooleanNetwork", ba.BooleanNetwork)
     bn = BN.from_bnet(text)
@@ -326,7 +334,7 @@ def replay(rec):
 def tasks(tier, seed, selftest=False):
     T = []
     q = tier == "quick"
-    groups = [["cnf", "ite"], ["aeon", "sbml"], ["rename+rotate", "order-only"], ["flip0", "reverse+flipall"], ["rename-prefix"], ["free-inputs"], ["idem", "notnot"]]
+    groups = [["cnf", "ite"], ["aeon", "sbml"], ["rename+rotate", "order-only"], ["flip0", "reverse+flipall"], ["rename-prefix"], ["free-inputs"], ["idem", "notnot"], ["object-reversed", "object-rotated"]]
     for g in groups:
         T.append({"prop": PROP, "family": "U2", "label": "U2/" + "+".join(g), "timebox": 60 if q else 600, "seed": seed, "params": {"which": g, "selftest": selftest}})
         if selftest:
@@ -342,7 +350,7 @@ def tasks(tier, seed, selftest=False):
 def main(tier, seed, t0, selftest=False):
     results = common.run_tasks(tasks(tier, seed, selftest))
     return common.finish(PROP, tier, seed, "model_checking", results, t0, selftest=selftest, functions=FUNCTIONS,
-                         bounds={"presentations": "identity variables as free inputs (no rule), essential-support DNF duplicated idempotently ((f)&(f), !!(f)), CNF, nested ITE, aeon text, sbml text, renamed+rotated declaration order, renamed to names containing the place prefixes b0_/b1_, order reversed only, variable 0 negated, all variables negated + reversed + renamed + CNF",
+                         bounds={"presentations": "network object with reversed / rotated declaration order, identity variables as free inputs (no rule), essential-support DNF duplicated idempotently ((f)&(f), !!(f)), CNF, nested ITE, aeon text, sbml text, renamed+rotated declaration order, renamed to names containing the place prefixes b0_/b1_, order reversed only, variable 0 negated, all variables negated + reversed + renamed + CNF",
                                  "families": "U2, D3 (quick, time-boxed); + S1C2 (thorough)",
                                  "sanitisation": "2 symbolic names of length <= 2 and 3 of length 1 (quick); <= 3 / <= 2 (thorough) over the alphabet " + "".join(ALPH) + "; classes = (lengths, per-character validity, identity of valid characters)",
                                  "outside": "AEON's parsers/serialisers themselves (aeon and sbml text is produced by AEON from the bnet form)"},
